@@ -99,6 +99,25 @@ func (w *world) usableNodes() []string {
 	return out
 }
 
+var bareNames = []string{"bm-0", "bm-1"}
+
+var tunnelKinds = []struct{ prefix, typ string }{
+	{"vxlan-tunnel-addr-", ipam.AttributeTypeVXLAN},
+	{"ipip-tunnel-addr-", ipam.AttributeTypeIPIP},
+	{"wireguard-tunnel-addr-", ipam.AttributeTypeWireguard},
+}
+
+// bareNodes lists the existing Calico nodes that Kubernetes does not orchestrate.
+func (w *world) bareNodes() []string {
+	var out []string
+	for _, n := range bareNames {
+		if in, k := w.calicoNodeInStore(n); in && k == "" {
+			out = append(out, n)
+		}
+	}
+	return out
+}
+
 func (w *world) startSandbox(p *podRec) bool {
 	p.handle = w.newHandle()
 	attrs := map[string]string{ipam.AttributePod: p.name, ipam.AttributeNamespace: p.ns, ipam.AttributeNode: p.node,
@@ -269,7 +288,20 @@ func (w *world) userStep() {
 			w.apiSetNode(n)
 			w.logf("node-create %s", n)
 		}
-	case x < 88: // a calico node resource whose Kubernetes node is long gone is cleaned up
+	case x < 88: // a calico node resource whose Kubernetes node is long gone is cleaned up; bare hosts come and go
+		if r.Intn(3) == 0 {
+			n := bareNames[r.Intn(len(bareNames))]
+			if in, _ := w.calicoNodeInStore(n); in {
+				if r.Intn(3) == 0 { // decommissioned without cleaning up its IPAM data
+					w.deleteCalicoNode(n)
+					w.logf("bare-node-delete %s", n)
+				}
+			} else if err := w.createBareNode(n, r.Intn(2) == 0); err == nil {
+				w.logf("bare-node-create %s", n)
+				w.c.Count("non_kubernetes_nodes_created", 1)
+			}
+			return
+		}
 		for _, n := range []string{"node-a", "node-b", "node-c", "node-d"} {
 			w.mu.Lock()
 			_, have := w.apiNodes[n]
@@ -282,11 +314,15 @@ func (w *world) userStep() {
 		}
 	case x < 92: // tunnel address
 		nodes := w.usableNodes()
+		if bare := w.bareNodes(); len(bare) > 0 && (len(nodes) == 0 || r.Intn(3) == 0) {
+			nodes = bare
+		}
 		if len(nodes) == 0 {
 			return
 		}
 		n := nodes[r.Intn(len(nodes))]
-		h := "vxlan-tunnel-addr-" + n
+		tk := tunnelKinds[r.Intn(len(tunnelKinds))]
+		h := tk.prefix + n
 		if r.Intn(2) == 0 {
 			// The tunnel address is released and claimed again under the same handle: same address, new
 			// sequence number (a static re-claim with AssignIP), or simply released before a new one is taken.
@@ -303,18 +339,18 @@ func (w *world) userStep() {
 					for _, ip := range cur {
 						hh := h
 						err := w.cni.AssignIP(context.Background(), ipam.AssignIPArgs{IP: *cnet.ParseIP(ip), HandleID: &hh, Hostname: n,
-							Attrs: map[string]string{ipam.AttributeNode: n, ipam.AttributeType: tunnelType}, IntendedUse: apiv3.IPPoolAllowedUseTunnel})
+							Attrs: map[string]string{ipam.AttributeNode: n, ipam.AttributeType: tk.typ}, IntendedUse: apiv3.IPPoolAllowedUseTunnel})
 						w.logf("tunnel-reclaim %s %s err=%v", n, ip, err != nil)
 					}
 					return
 				}
 			}
 		}
-		ips := w.cniAssign("vxlan-tunnel-addr-"+n, n, map[string]string{ipam.AttributeNode: n, ipam.AttributeType: tunnelType}, false, apiv3.IPPoolAllowedUseTunnel)
-		w.logf("tunnel-assign %s %v", n, ips)
+		ips := w.cniAssign(h, n, map[string]string{ipam.AttributeNode: n, ipam.AttributeType: tk.typ}, false, apiv3.IPPoolAllowedUseTunnel)
+		w.logf("tunnel-assign %s %s %v", n, tk.typ, ips)
 		w.c.Count("tunnel_addresses_assigned", int64(len(ips)))
 	case x < 95: // an empty block is handed from one node to another (ReleaseAffinity + ClaimAffinity)
-		nodes := w.usableNodes()
+		nodes := append(w.usableNodes(), w.bareNodes()...)
 		type eb struct{ cidr, host string }
 		var empties []eb
 		w.st.View(func(v casstore.View) {
@@ -343,8 +379,11 @@ func (w *world) userStep() {
 		_, _, err = w.cni.ClaimAffinity(context.Background(), *cidr, ipam.AffinityConfig{AffinityType: ipam.AffinityTypeHost, Host: to})
 		w.logf("block-handover %s from %s to %s err=%v", e.cidr, e.host, to, err != nil)
 		w.c.Count("block_handovers", 1)
-	case x < 96: // allocation of unknown source on a node
+	case x < 96: // allocation of unknown source on a node (e.g. an OpenStack workload on a bare host)
 		nodes := w.usableNodes()
+		if bare := w.bareNodes(); len(bare) > 0 && r.Intn(4) == 0 {
+			nodes = bare
+		}
 		if len(nodes) == 0 {
 			return
 		}
@@ -533,6 +572,19 @@ func run(c *harness.Case) {
 			return
 		}
 		w.apiSetNode(n)
+	}
+	if r.Intn(10) < 7 {
+		// a host that runs calico-node but is not a Kubernetes node, with its tunnel address
+		n := bareNames[0]
+		if err := w.createBareNode(n, r.Intn(2) == 0); err != nil {
+			c.Inconclusive("set-up failed: " + err.Error())
+			return
+		}
+		c.Count("non_kubernetes_nodes_created", 1)
+		tk := tunnelKinds[r.Intn(len(tunnelKinds))]
+		ips := w.cniAssign(tk.prefix+n, n, map[string]string{ipam.AttributeNode: n, ipam.AttributeType: tk.typ}, false, apiv3.IPPoolAllowedUseTunnel)
+		w.logf("bare-node-create %s tunnel %s %v", n, tk.typ, ips)
+		c.Count("tunnel_addresses_assigned", int64(len(ips)))
 	}
 	if c.Index%40 == 39 {
 		w.liveRun()
